@@ -12,8 +12,8 @@ CONSTANTS Messages <- MCMessages
           SzBig = 60
           SzErr = 40
           SzInv = 43
-          CallMethods = {"ret", "blk", "cblk", "big", "err"}
-          NotifMethods = {"ret", "blk", "cblk"}
+          CallMethods = {"ret", "blk", "cblk", "big", "err", "nsub"}
+          NotifMethods = {"ret", "blk", "cblk", "nsub"}
           InvIds = {0, 1}
           WithResp = TRUE
           MaxBatch = 3
